@@ -673,3 +673,20 @@ Theorem C19_source_wmedian_tail : forall ps,
              (Z.of_nat i) (nth i (qcumsum w) 0)
              (qdiv (qadd (nth i vals 0) (nth (S i) vals 0)) 2) (nth i vals 0).
 Proof. exact Proofs.FnWmedianTail.source_wmedian_tail. Qed.
+
+(* the decorators (signature `wrapper(a, **kwargs)`): empty / one-value short cuts and the call of the wrapped function *)
+From CNV Require Gen.FnOnArray Proofs.FnOnArray.
+Theorem C19_source_on_array : forall default f a,
+  on_array default f a = Gen.FnOnArray.fn_on_array (Z.of_nat (length a)) (hd 0 a) default (f a).
+Proof. exact Proofs.FnOnArray.source_on_array. Qed.
+Theorem C19_source_on_weighted_array : forall default f ps n_w w any_nan,
+  on_weighted_array default f ps =
+  Gen.FnOnArray.fn_on_weighted_empty (Z.of_nat (length ps)) n_w
+    (Gen.FnOnArray.fn_on_weighted_array (Z.of_nat (length ps)) (fst (hd (0, 0) ps)) default w any_nan (f ps)).
+Proof. exact Proofs.FnOnArray.source_on_weighted_array. Qed.
+(* `w_nan = np.isnan(w); if w_nan.any(): w[w_nan] = 0.0` per weight: the weight column of clean_weighted *)
+Theorem C19_source_weight_fill : forall any_nan a w,
+  (In None w -> any_nan = true) ->
+  clean_weighted a w =
+  Proofs.FnOnArray.clean_weighted_with (fun ow => Gen.FnOnArray.fn_weight_fill ow any_nan) a w.
+Proof. exact Proofs.FnOnArray.source_weight_fill. Qed.
